@@ -13,7 +13,7 @@
              independent probe-inserting reference instrumenter (tools/impl/ref_instr.py) on generated programs. *)
 From Coq Require Import List ZArith NArith Bool Sorted.
 Import ListNotations.
-From PyccoloV Require model.RwFrag model.FragSem proofs.FragSemProofs model.FragFun proofs.FragFunProofs.
+From PyccoloV Require model.RwFrag model.FragSem proofs.FragSemProofs model.FragFun proofs.FragFunProofs model.FragProg proofs.FragProgProofs.
 From PyccoloV Require Import gen.PyAst gen.Ids gen.Events gen.EmitRet model.Val model.Rt model.Tree model.Erase model.Sites
   proofs.RtProofs proofs.DeliverProofs proofs.EraseSound.
 
@@ -120,4 +120,29 @@ Example C02_fun_stream_nonvacuous :
   FragFun.f_exc a = Some (FragFun.FX FragSem.EZeroDiv) /\
   FragFun.f_log a = [(E_before_call, 13, Some (FragSem.VFun 1)); (E_after_argument, 16, Some (FragSem.VInt 1));
                      (E_before_function_body, 1, Some (FragSem.VBool true)); (E_before_return, 5, None); (E_after_function_execution, 1, Some FragSem.VNone)]%N.
+Proof. vm_compute. repeat split; reflexivity. Qed.
+
+(* ... and with LOOPS AND FUNCTIONS TOGETHER (model/FragProg.v): the subscribed events are those of the reference `pref_module`; in particular
+   after_while_loop_iter closes every instrumented iteration and after_function_execution every instrumented invocation however they end -
+   `return` from inside a loop passes both.  K-prog compares with real runs. *)
+Theorem C02_prog_stream : forall binop cmpop unop truth cval is_and fuel c ge pol m d r sv,
+  forallb FragProgProofs.psrc_t m = true ->
+  FragSem.filter_log c (FragProg.p_log (FragProg.prun binop cmpop unop truth cval is_and c pol fuel d (FragProg.pinstr_module c ge m) r sv)) =
+  FragSem.filter_log c (FragProg.pr_log (FragProg.pref_module binop cmpop unop truth cval is_and c pol fuel ge d m r)).
+Proof. exact FragProgProofs.prog_stream. Qed.
+Print Assumptions C02_prog_stream.
+
+(* non-vacuity: `def f(p): while p: return p` then `a = f(1)` with the loop and function brackets subscribed: the `return` leaves the loop and the
+   function, after_while_loop_iter and after_function_execution both arrive, in that order *)
+Example C02_prog_stream_nonvacuous :
+  let m := [FragProg.PDef 1 100 [101] [FragProg.PWhile 4 (FragSem.XName 5 101) [FragProg.PReturn 7 (Some (FragFun.RExp (FragSem.XName 8 101)))] []];
+            FragProg.PAssign 10 [102] (FragFun.RCall 13 false false false (FragSem.XName 14 100) [FragSem.XConst 16 (SInt 1%Z)])]%N in
+  let c := {| RwFrag.sub := fun e => existsb (event_eqb e) [E_before_function_body; E_after_function_execution; E_before_while_loop_body; E_after_while_loop_iter; E_after_return] |} in
+  forallb FragProgProofs.psrc_t m = true /\
+  let a := FragProg.prun FragSem.Py.binop FragSem.Py.cmpop FragSem.Py.unop FragSem.Py.truth FragSem.Py.cval FragSem.Py.is_and c (fun _ _ => true) 5 3
+             (FragProg.pinstr_module c true m) (fun _ => None) FragSem.VNone in
+  FragProg.p_exc a = None /\ FragProg.p_env a 102%N = Some (FragSem.VInt 1) /\
+  FragProg.p_log a = [(E_before_function_body, 1, Some (FragSem.VBool true)); (E_before_while_loop_body, 4, Some (FragSem.VBool true));
+                      (E_after_return, 8, Some (FragSem.VInt 1)); (E_after_while_loop_iter, 4, Some FragSem.VNone);
+                      (E_after_function_execution, 1, Some FragSem.VNone)]%N.
 Proof. vm_compute. repeat split; reflexivity. Qed.
